@@ -150,12 +150,12 @@ func VerifC08Parse() {
 		}
 	} else {
 		// 1..3 lines from templates with every terminator combination
-		k, nt := 1+verifrt.Choice(2), 5
+		k, nt := 1+verifrt.Choice(2), 7
 		if verifrt.Thorough() {
-			k, nt = 1+verifrt.Choice(3), 7
+			k, nt = 1+verifrt.Choice(3), 8
 		}
 		for i := 0; i < k; i++ {
-			src = append(src, [...]string{"::1 a", "1.1.1.1 a.a b", "", "x", "::1 a\r", "#c", "::1"}[verifrt.Choice(nt)]...)
+			src = append(src, [...]string{"::1 a", "1.1.1.1 a.a b", "", "x", "::1 a\r", "#c", "::1 a  b\tc \t d #e #f", "::1"}[verifrt.Choice(nt)]...)
 			switch verifrt.Choice(3) {
 			case 0:
 				src = append(src, '\n')
@@ -194,6 +194,10 @@ func VerifC08Parse() {
 				want = append(want, c08Call{line: i + 1, data: string(l), src: wantSrc})
 			}
 		} else {
+			// the record of a well-formed line, independently of
+			// UnmarshalText: the fields after the first
+			f := c07Fields(l)
+			verifrt.Assert(len(f) >= 2 && c07EqNames(rec.Names, f[1:]), "the record of a well-formed line does not carry exactly the names of the line")
 			want = append(want, c08Call{add: true, rec: rec})
 		}
 	}
